@@ -72,7 +72,39 @@ def chk_spectrum(inp):
                 return bad("%s amplitude does not scale as r0^(-5/6) for fixed draws (r0 %g -> %g, repeated calls in one process)" % (f.__name__, ra, rb))
 
 
+def int_seed_structure(r0, N, delta, L0, l0):
+    """exact ensemble structure functions of ft_sh_phase_screen / ft_phase_screen called with an INTEGER seed: every default_rng(<int>) call
+    is replaced by a generator replaying one common stream from its start (what equal integer seeds do), the screens are probed with unit streams"""
+    orig = numpy.random.default_rng
+
+    class Play:
+        def __init__(self, s): self.s, self.k = s, 0
+        def normal(self, loc=0, scale=1, size=None):
+            n = int(numpy.prod(size)); v = self.s[self.k:self.k + n].reshape(size); self.k += n; return v
+    n = 2 * N * N + 54
+    Lsh, Lhi = numpy.zeros((N * N, n)), numpy.zeros((N * N, n))
+    for k in range(n):
+        e = numpy.zeros(n); e[k] = 1
+        try:
+            numpy.random.default_rng = lambda seed=None: seed if hasattr(seed, "normal") else Play(e)
+            sh = aotools.ft_sh_phase_screen(r0, N, delta, L0, l0, seed=1)
+            hi = aotools.ft_phase_screen(r0, N, delta, L0, l0, seed=1)
+        finally:
+            numpy.random.default_rng = orig
+        Lsh[:, k], Lhi[:, k] = sh.ravel(), hi.ravel()
+    d = lambda L: ((L[:, None, :] - L[None, :, :]) ** 2).sum(-1)
+    return d(Lsh), d(Lhi)
+
+
 def chk_sub(inp):
+    # called with an integer seed (the documented use) the sub-harmonic screen only ADDS structure: no value below the plain FFT screen's
+    for cfg in ((0.2, 4, 1.0, 0.5, 0.01), (0.2, 8, 0.1, 0.2, 1e-3), (0.15, 8, 0.05, 20., 0.01)):
+        Dsh, Dhi = int_seed_structure(*cfg)
+        worst = (Dsh - Dhi).min() / Dhi.max()
+        if worst < -1e-9:
+            i, j = numpy.unravel_index(numpy.argmin(Dsh - Dhi), Dsh.shape)
+            return bad("ft_sh_phase_screen(seed=<int>) (r0=%g, N=%d, delta=%g, L0=%g): the structure function between pixels %d and %d is BELOW the plain FFT screen's (the two parts share draws)" % (cfg[0], cfg[1], cfg[2], cfg[3], i, j),
+                       float(Dsh[i, j]), ">= %.6g" % float(Dhi[i, j]))
     a = aotools.ft_sh_phase_screen(0.15, 16, 0.05, 20., 0.01, seed=numpy.random.default_rng(3))
     if a.shape != (16, 16) or not numpy.all(numpy.isfinite(a)):
         return bad("sub-harmonic screen shape / finiteness")
@@ -96,7 +128,40 @@ def chk_sub(inp):
         def __init__(self, arrs): self.arrs = list(arrs)
         def normal(self, loc=0, scale=1, size=None): return self.arrs.pop(0)
     orig = numpy.random.default_rng
-    for (r0, N, delta, L0, l0) in ((0.15, 8, 0.05, 20., 0.01), (0.2, 12, 0.1, 3., 0.02), (0.1, 6, 0.25, 100., 0.3)):
+    # a real numpy Generator handed in as seed: the sub-harmonic draws are the NEXT draws of that generator after the two N x N arrays of the
+    # high-frequency screen (a generator with the same seed replays them)
+    for (r0, N, delta, L0, l0) in ((0.15, 8, 0.05, 20., 0.01), (0.2, 4, 1.0, 0.5, 0.01)):
+        scr = aotools.ft_sh_phase_screen(r0, N, delta, L0, l0, seed=numpy.random.default_rng(77))
+        g2 = numpy.random.default_rng(77)
+
+        class _Replay:
+            def __init__(self, arrs): self.arrs = list(arrs)
+            def normal(self, loc=0, scale=1, size=None): return self.arrs.pop(0)
+        first = [g2.normal(size=(N, N)), g2.normal(size=(N, N))]          # what the high-frequency screen consumes
+        _orig = numpy.random.default_rng
+        try:
+            numpy.random.default_rng = lambda seed=None: seed if isinstance(seed, _Replay) else _orig(seed)
+            hi = aotools.ft_phase_screen(r0, N, delta, L0, l0, seed=_Replay(first))
+        finally:
+            numpy.random.default_rng = _orig
+        nxt = [g2.normal(size=(3, 3)) for _ in range(6)]
+        c = numpy.arange(-N / 2, N / 2) * delta
+        X, Y = numpy.meshgrid(c, c)
+        lo = numpy.zeros((N, N))
+        for gi in (1, 2, 3):
+            dfg = 1. / (3 ** gi * N * delta)
+            A_, B_ = nxt[2 * gi - 2], nxt[2 * gi - 1]
+            for i in range(3):
+                for j in range(3):
+                    if i == 1 and j == 1:
+                        continue
+                    fx, fy = (j - 1) * dfg, (i - 1) * dfg
+                    w = numpy.sqrt(psd(numpy.sqrt(fx ** 2 + fy ** 2), r0, L0, l0)) * dfg
+                    lo += w * (A_[i, j] * numpy.cos(2 * numpy.pi * (fx * X + fy * Y)) - B_[i, j] * numpy.sin(2 * numpy.pi * (fx * X + fy * Y)))
+        want = hi + lo - lo.mean()
+        if not numpy.allclose(scr, want, rtol=1e-9, atol=1e-9 * abs(want).max()):
+            return bad("ft_sh_phase_screen(seed=<Generator>) (N=%d): the screen is not the high-frequency screen of that generator plus sub-harmonics built from the generator's NEXT draws" % N, float(abs(scr - want).max()), 0.0)
+    for (r0, N, delta, L0, l0) in ((0.15, 8, 0.05, 20., 0.01), (0.2, 12, 0.1, 3., 0.02), (0.1, 6, 0.25, 100., 0.3), (0.15, 8, 0.05, 1e10, 0.01), (0.15, 8, 0.05, float("inf"), 0.01)):
         rec = Rec(11)
         try:
             numpy.random.default_rng = lambda seed=None, rec=rec: seed if hasattr(seed, "normal") else rec
